@@ -192,12 +192,12 @@ func rewriteFile(path, rel string, stmtYield, quiet bool) ([]byte, bool) {
 	ast.Inspect(f, func(n ast.Node) bool {
 		switch x := n.(type) {
 		case *ast.SelectorExpr:
-			for _, bad := range []string{"Cond", "WaitGroup", "Once", "Map", "Pool"} {
+			for _, bad := range []string{"Cond", "Map", "Pool"} {
 				if isPkgSel(x, "sync", bad) {
 					st.Unsupported = append(st.Unsupported, fmt.Sprintf("%s: sync.%s", r.loc(x.Pos()), bad))
 				}
 			}
-			for _, bad := range []string{"Sleep", "After", "Tick", "NewTimer"} {
+			for _, bad := range []string{"Tick"} {
 				if isPkgSel(x, "time", bad) && !quiet {
 					st.Unsupported = append(st.Unsupported, fmt.Sprintf("%s: time.%s", r.loc(x.Pos()), bad))
 				}
@@ -236,6 +236,11 @@ func rewriteFile(path, rel string, stmtYield, quiet bool) ([]byte, bool) {
 				x.Fun = r.sim("NewTicker")
 				x.Args = append([]ast.Expr{strLit(l)}, x.Args...)
 				st.Ticker++
+			} else if !r.quiet && (isPkgSel(x.Fun, "time", "NewTimer") || isPkgSel(x.Fun, "time", "Sleep") || isPkgSel(x.Fun, "time", "After")) {
+				// (not used by the pinned tree; a changed tree may use them)
+				l := r.loc(x.Pos())
+				x.Fun = r.sim(x.Fun.(*ast.SelectorExpr).Sel.Name)
+				x.Args = append([]ast.Expr{strLit(l)}, x.Args...)
 			}
 		}
 		return true
@@ -378,6 +383,10 @@ func (r *rewriter) rewriteType(t ast.Expr) ast.Expr {
 			fatal("%s: RWMutex in quiet package", r.rel)
 		}
 		return r.sim("RWMutex")
+	case !r.quiet && isPkgSel(t, "sync", "Once"):
+		return r.sim("Once")
+	case !r.quiet && isPkgSel(t, "sync", "WaitGroup"):
+		return r.sim("WaitGroup")
 	}
 	return t
 }
